@@ -114,4 +114,34 @@ present on the other changes the field names that remain, so this is `sameUpToCt
 is coarser (`Foo(a=None, b=1)` and `Foo(b=1)` print the same text). -/
 def sameExpr (a b : Val) : Bool := sameShape (eraseCtx a) (eraseCtx b)
 
+mutual
+/-- The expression nodes of a tree, in pre-order. -/
+def exprNodes : Val → List Val
+  | .node ty e r ln fs => (if e then [.node ty e r ln fs] else []) ++ exprNodesFields fs
+  | .list _ xs => exprNodesItems xs
+  | .scalar _ _ => []
+def exprNodesFields : List (Str × Val) → List Val
+  | [] => []
+  | (_, v) :: rest => exprNodes v ++ exprNodesFields rest
+def exprNodesItems : List Val → List Val
+  | [] => []
+  | v :: rest => exprNodes v ++ exprNodesItems rest
+end
+
+/-- Over all pairs of the given expressions: (pairs with the same dump text, pairs on which "same text" and
+`sameExpr` disagree — none on `wfDump` trees, by `C15_dump_iff` —, pairs on which `sameExpr` and `sameUpToCtx`
+disagree — none on real trees). -/
+def pairStats (es : List Val) : Nat × Nat × Nat :=
+  let ds := es.map fun e => (e, dumpNoCtx e)
+  let rec go : List (Val × Str) → Nat × Nat × Nat → Nat × Nat × Nat
+    | [], acc => acc
+    | (a, da) :: rest, acc =>
+      go rest (rest.foldl (fun (x : Nat × Nat × Nat) (p : Val × Str) =>
+        let same := da == p.2
+        let se := sameExpr a p.1
+        let su := sameUpToCtx a p.1
+        (x.1 + (if same then 1 else 0), x.2.1 + (if same != se then 1 else 0),
+          x.2.2 + (if se != su then 1 else 0))) acc)
+  go ds (0, 0, 0)
+
 end Paroxy.Flat
